@@ -36,6 +36,7 @@ CONSTANTS
     MwScript,     \* [mw id -> [phase -> [kind -> "C"|"D"|"B"|"E"|"*"]]], "*" = any of MwVerdicts
     MwVerdicts,   \* the answers a "*" entry may give
     MwRemove,     \* [mw id -> [kind -> "none" | "first" | "all"]]  (before_effect)
+    MwDisp,       \* [mw id -> [kind -> action id | 0]]: before_dispatch dispatches this through its dispatcher
     Subs,         \* set of subscriber ids ("s1", ...)
     SubKind,      \* [Subs -> "direct" | "sel" | "chan" | "iter"]
     SubCap, SubPol, \* channel of a "chan"/"iter" subscriber
@@ -99,7 +100,7 @@ SetOfSeq(seq) == {seq[i] : i \in 1..Len(seq)}
 Loc0 == [ip |-> 1, ch |-> "D", item |-> 0, sub |-> SubItem(<<>>, 0), sok |-> TRUE, ret |-> "-",
          a |-> 0, via |-> "-", us |-> "-", uret |-> "-", cont |-> "-", k |-> 1, i |-> 1,
          snap |-> <<>>, st |-> <<>>, before |-> <<>>, effs |-> <<>>, needD |-> TRUE,
-         needN |-> TRUE, redAct |-> TRUE, calls |-> 0, got |-> FALSE, tid |-> 0, ph |-> "-", snapUnsub |-> {}]
+         needN |-> TRUE, redAct |-> TRUE, calls |-> 0, got |-> FALSE, tid |-> 0, ph |-> "-", snapUnsub |-> {}, ansv |-> "-"]
 
 M0 == [received |-> 0, dropped |-> 0, chDropped |-> 0, reduced |-> 0, effIssued |-> 0,
        mwExecuted |-> 0, notified |-> 0, subNotified |-> 0, errors |-> 0]
@@ -281,6 +282,7 @@ Submit(w, kind, a) == SubmitFrom(w, kind, a, 0)
 (* Middleware phases, store_impl.rs:297-327 / 376-405 / 446-475               *)
 
 Verdict(mw, ph, a) == MwScript[mw][ph][Kind[a]]
+MwDispOf(mwl, l) == IF l.ph = "before_dispatch" THEN MwDisp[mwl[l.i]][Kind[l.a]] ELSE 0
 Answers(t) ==
     IF t = "R" /\ pc[t] = "mw.ret"
     THEN LET v == Verdict(mws[loc[t].i], loc[t].ph, loc[t].a) IN IF v = "*" THEN MwVerdicts ELSE {v}
@@ -309,20 +311,33 @@ ApplyRemove(effs, how) ==
     CASE how = "none" -> effs [] how = "all" -> <<>>
       [] how = "first" -> IF effs = <<>> THEN effs ELSE Tail(effs)
 
-MMwRet(w) ==                 \* the callback returns w.ans
+MMwVerdict(w) ==             \* apply the verdict L.ansv
     LET ph == L(w).ph  i == L(w).i  mw == w.mws[i]
         w1 == IF ph = "before_effect"
               THEN [w EXCEPT !.loc[w.t].effs = ApplyRemove(@, MwRemove[mw][Kind[L(w).a]])]
               ELSE w
         next == [w1 EXCEPT !.loc[w.t].i = i + 1, !.pc[w.t] = "mw.call"] IN
-    CASE w.ans = "C" -> next
-      [] w.ans = "D" ->
+    CASE L(w).ansv = "C" -> next
+      [] L(w).ansv = "D" ->
             IF ph = "before_reduce" THEN [next EXCEPT !.loc[w.t].redAct = FALSE]
             ELSE IF ph = "before_dispatch" THEN [next EXCEPT !.loc[w.t].needN = FALSE,
                                                              !.h.supp = @ \cup {L(w).a}]
             ELSE next
-      [] w.ans = "B" -> Goto(w1, "mw.end")
-      [] w.ans = "E" -> Park(w1, "mw.err", "cb", Cb(w1, "on_error", mw, <<>>, L(w).a, <<>>))
+      [] L(w).ansv = "B" -> Goto(w1, "mw.end")
+      [] L(w).ansv = "E" -> Park(w1, "mw.err", "cb", Cb(w1, "on_error", mw, <<>>, L(w).a, <<>>))
+
+MMwRet(w) ==                 \* the callback is left with answer w.ans; a before_dispatch hook may first use
+                             \* the dispatcher it was given (Dispatcher::dispatch on the reducer thread, guard: tx lock free)
+    LET a2 == MwDispOf(w.mws, L(w))
+        w0 == [w EXCEPT !.loc[w.t].ansv = w.ans] IN
+    IF a2 = 0 THEN MMwVerdict(w0)
+    ELSE LET w1 == [w0 EXCEPT !.loc[w.t].via = "trait", !.h.before = @ \cup {<<x, a2>> : x \in w.h.ret},
+                              !.h.follow = @ \cup {<<L(w).a, a2>>}] IN
+         IF w.chan["D"].open
+         THEN LET w2 == [w1 EXCEPT !.lk["tx"] = w.t, !.h.sawOpen = @ \cup {a2}] IN
+              Park([w2 EXCEPT !.loc[w.t].ch = "D", !.loc[w.t].item = a2, !.loc[w.t].ret = "mwdisp", !.loc[w.t].sok = TRUE],
+                   "send", "send.begin", [ch |-> "D", item |-> a2])
+         ELSE MMwVerdict([w1 EXCEPT !.h.ret = @ \cup {a2}, !.h.res[a2] = "Err"])
 
 MMwEnd(w) ==
     Goto([w EXCEPT !.lk["mws"] = "-", !.m.mwExecuted = @ + L(w).calls], AfterMw(L(w).ph))
@@ -460,6 +475,10 @@ MSent(w) ==
             Goto([w EXCEPT !.loc[w.t].k = @ + 1], "ntf.call")
       [] ret = "itx" ->
             Goto(w, "unsub.ret")
+      [] ret = "mwdisp" ->   \* the middleware's dispatch returns (dispatcher.rs:28-36): unlock, go on with the verdict
+            LET a2 == L(w).item IN
+            Goto([w EXCEPT !.lk["tx"] = "-", !.h.ret = @ \cup {a2},
+                           !.h.res[a2] = IF L(w).sok THEN "Ok" ELSE "Err"], "mw.verdict")
 
 -----------------------------------------------------------------------------
 (* Client operations (pc "idle": between two public calls)                   *)
@@ -634,6 +653,7 @@ Micro(w) ==
       [] p = "mwchk"     -> MMwCheck2(w, L(w).ph)
       [] p = "mw.call"   -> MMwCall(w)
       [] p = "mw.ret"    -> MMwRet(w)
+      [] p = "mw.verdict" -> MMwVerdict(w)
       [] p = "mw.err"    -> Goto([w EXCEPT !.loc[w.t].i = @ + 1], "mw.call")
       [] p = "mw.end"    -> MMwEnd(w)
       [] p = "red.begin" -> MRedBegin(w)
@@ -697,6 +717,7 @@ CanLeave(t) ==
       [] p = "snap" -> lk["subs"] = "-"
       [] p = "chfwd" -> lk[CtxLock(l.snap[l.k])] = "-"
       [] p = "clear" -> lk["subs"] = "-"
+      [] p = "mw.ret" -> MwDispOf(mws, l) # 0 => lk["tx"] = "-"
       [] p = "w.start" -> tasks[l.tid].kind = "act" => lk["tx"] = "-"
       [] p = "w.cb" -> tasks[l.tid].kind = "thunk" => lk["tx"] = "-"
       [] p = "ch.wait" -> LET s == ChSub(t) IN chan[s].q # <<>> \/ ~chan[s].alive
